@@ -21,7 +21,7 @@ pub struct Case {
 pub fn meta() -> PropMeta {
   PropMeta {
     id: "C14",
-    rule: "cases = (depth, cell, delta_depth >= 1, depth + delta <= 29): all cells of depth 0..=3 x delta 1..=4 (quick) / depth 0..=4 x delta 1..=6 (thorough) enumerated, plus generated (depth 0..=28, cell by class: base-cell corners / borders / one step inside / uniform, delta 1..=min(14, 29-depth), incl. depth + delta = 29); delta 11..=29-depth for the four corner sub-cells only (O(1) helpers; the lists would have 4*2^delta cells); non-trivial = cell on a base-cell border (the external edge crosses a seam) or delta >= 3; distinct by (depth, cell, delta)",
+    rule: "cases = (depth, cell, delta_depth >= 1, depth + delta <= 29): all cells of depth 0..=3 x delta 1..=4 (quick) / depth 0..=4 x delta 1..=6 (thorough) enumerated, plus generated (depth 0..=28, cell by class: base-cell corners / borders / one step inside / uniform, delta 1..=min(14, 29-depth), incl. depth + delta = 29, and one case in 700 with delta 15..=17); delta 11..=29-depth for the four corner sub-cells only (O(1) helpers; the lists would have 4*2^delta cells); non-trivial = cell on a base-cell border (the external edge crosses a seam) or delta >= 3; distinct by (depth, cell, delta)",
     assumptions: vec![
       "delta_depth = 0 is outside the domain (the stated cardinality 4*2^delta - 4 is 0 and the crate's masks shift by 64)".into(),
       "reference: descendants and deep-level neighbour map of the lattice model; external corner(dir) = deep neighbour towards dir of the corner descendant; external side(ord) = deep neighbours towards ord of the descendants on that side".into(),
@@ -365,7 +365,8 @@ fn strat() -> BoxedStrategy<Case> {
   (0u8..=28)
     .prop_flat_map(|d| {
       let maxdl = (29 - d).min(14);
-      let dl = prop_oneof![48 => 1u8..=maxdl.min(3), 16 => 1u8..=maxdl.min(6), 4 => 1u8..=maxdl.min(10), 1 => 1u8..=maxdl, 3 => Just(29 - d).prop_map(move |x| x.min(10).max(1)), 1 => Just(29 - d).prop_map(move |x| x.min(14).max(1))];
+      let hugedl = (29 - d).min(17); // 4 * 2^17 cells: rare (the z-order class and the masks change with delta)
+      let dl = prop_oneof![480 => 1u8..=maxdl.min(3), 160 => 1u8..=maxdl.min(6), 40 => 1u8..=maxdl.min(10), 10 => 1u8..=maxdl, 1 => (maxdl.min(15))..=hugedl.max(maxdl.min(15)), 30 => Just(29 - d).prop_map(move |x| x.min(10).max(1)), 10 => Just(29 - d).prop_map(move |x| x.min(14).max(1))];
       (gens::cell(d), dl).prop_map(move |(cell, delta)| Case { depth: d, cell, delta })
     })
     .boxed()
